@@ -289,6 +289,7 @@ class DDLParser(Parser, Dialects):
     def p_error(self, p):
         if not self.silent:
             raise DDLParserError(f"Unknown statement at {p}")
+        self.syntax_error = True
 
 
 def parse_from_file(
